@@ -381,7 +381,7 @@ class RetryExecutor(CanCustomizeBind, Executor):
 
                     if not job.delegate_future:
                         self._log.debug("Successful cancel - no delegate: %s", job)
-                        self._jobs.pop(idx)
+                        self._pop_job(job)
                         return True
 
                     found_job = job
